@@ -1138,9 +1138,7 @@ theorem sim_docAssign {c : Ctx} {sn sn' : Seen} {s : State} {ns : PySem.Ns} (R :
   simp only [checkStmt] at h
   split at h
   · rename_i hc
-    simp only [Bool.and_eq_true, beq_iff_eq] at hc
-    obtain ⟨hd, hclean⟩ := hc
-    have hd' : n ∈ sn.docable := by simpa using hd
+    have hd' : n ∈ sn.docable := by simpa using hc
     simp only [Option.some.injEq] at h
     subst h
     have hnn : n ∈ sn.names := R.docSub n hd'
@@ -1153,7 +1151,7 @@ theorem sim_docAssign {c : Ctx} {sn sn' : Seen} {s : State} {ns : PySem.Ns} (R :
         have hmem := plookup_some hlp
         have hdo : DocP o := R.docP n hd' (n, o) hmem rfl
         have hB : execStmt c inBlock s (.docAssign n t) =
-            .ok { s with contents := upd s.contents n (fun o => { o with doc := some t }) } := by
+            .ok { s with contents := upd s.contents n (fun o => { o with doc := some (cleandoc t) }) } := by
           simp only [execStmt, handleDocAssign, hl]
         have hP : PySem.execStmt c ns (.docAssign n t) =
             .ok (ns.map (fun p => if p.1 = n then (n, setDocO t o) else p)) := by
@@ -1198,12 +1196,10 @@ theorem sim_docAssign {c : Ctx} {sn sn' : Seen} {s : State} {ns : PySem.Ns} (R :
                 split
                 · unfold kindClass; simp [h1]
                 · unfold kindClass; rw [h1]; cases m.kind <;> simp
-            rw [viewB_setdoc c m (some t) hnv, hv]
+            rw [viewB_setdoc c m (some (cleandoc t)) hnv, hv]
             rcases hdo with ⟨a, d, rfl⟩ | ⟨x, d, rfl⟩
-            · simp only [viewP, setDocO, PySem.rawDoc, PySem.underlying, Option.map_some, PySem.kindClass, PySem.coroutine,
-                show cleandoc t = t from hclean]
-            · simp only [viewP, setDocO, PySem.rawDoc, PySem.underlying, Option.map_some, PySem.kindClass, PySem.coroutine,
-                show cleandoc t = t from hclean]
+            · simp only [viewP, setDocO, PySem.rawDoc, PySem.underlying, Option.map_some, PySem.kindClass, PySem.coroutine]
+            · simp only [viewP, setDocO, PySem.rawDoc, PySem.underlying, Option.map_some, PySem.kindClass, PySem.coroutine]
           · have eb : ¬ b.1 = n := hname ▸ e
             rw [if_neg e, if_neg eb]; exact hv
         · rw [← R.names]
@@ -1817,13 +1813,22 @@ theorem documented_eq_bound_del_counterexample :
     documented (cx false) [.assign nW .int none, .delName nW] = [(nW, .variable)] ∧
     bound (cx false) [.assign nW .int none, .delName nW] = [] := by decide
 
-/-- `f.__doc__ = "  indented\n    more"`: the interpreter's cleaned docstring is `"indented\nmore"`, pydoctor keeps
-the string as written (`_handleDocstringUpdate` does not go through `cleandoc`) -/
-theorem docstring_eq_docassign_counterexample :
-    docsOf (cx false) [.funcDef nF false [] none, .docAssign nF "  indented\n    more".toList]
+/-- `_handleDocstringUpdate` as it was before 6e624d0: the assigned string was stored as written — pre-fix, for the record -/
+def handleDocAssignOld (s : State) (n : Name) (text : List Char) : State :=
+  match lookup s.contents n with
+  | some _ => { s with contents := upd s.contents n (fun o => { o with doc := some text }) }
+  | none => s
+
+/-- historical (before 6e624d0): `f.__doc__ = "  indented\n    more"` kept the string as written while the interpreter's
+cleaned docstring is `"indented\nmore"`; now both sides agree and the statement is inside the subset for every text -/
+theorem docstring_eq_docassign_counterexample_old :
+    (handleDocAssignOld { contents := [{ name := nF, cls := .function, kind := .function }] } nF "  indented\n    more".toList).contents.map (·.doc)
       = [some "  indented\n    more".toList] ∧
+    docsOf (cx false) [.funcDef nF false [] none, .docAssign nF "  indented\n    more".toList]
+      = [some "indented\nmore".toList] ∧
     pyDocsOf (cx false) [.funcDef nF false [] none, .docAssign nF "  indented\n    more".toList]
-      = [some "indented\nmore".toList] := by decide
+      = [some "indented\nmore".toList] ∧
+    inSubset (cx false) [.funcDef nF false [] none, .docAssign nF "  indented\n    more".toList] = true := by decide
 
 example : inSubset (cx true) [.funcDef nF false [.ident nD] none, .docAssign nF "assigned later".toList,
     .classDef nK [] [] none [], .docAssign nK "Title\n\nkept".toList] = true := by decide
